@@ -21,7 +21,10 @@ use proptest::{
 use serde::{de::DeserializeOwned, Deserialize, Serialize};
 use serde_json::{json, Value};
 
-pub const VERIF_DIR: &str = "/verif";
+/// Where replays, failures, evidence and KNOWN_FINDINGS.txt live (overridable for isolated mutation runs).
+pub fn verif_dir() -> PathBuf {
+    PathBuf::from(std::env::var("DV_VERIF_DIR").unwrap_or_else(|_| "/verif".to_string()))
+}
 
 #[derive(Debug, Clone, Copy, PartialEq, Eq)]
 pub enum Tier {
@@ -271,7 +274,7 @@ pub struct KnownFinding {
 
 /// Lines: `known: property=<id> signature=<sig> <what fails>`; `fixed:` lines suppress nothing.
 pub fn load_known(id: &str) -> Vec<KnownFinding> {
-    let path = Path::new(VERIF_DIR).join("KNOWN_FINDINGS.txt");
+    let path = verif_dir().join("KNOWN_FINDINGS.txt");
     let Ok(text) = std::fs::read_to_string(path) else {
         return vec![];
     };
@@ -539,11 +542,11 @@ pub fn run_replay<P: Prop>(path: &Path) -> i32 {
 // parent
 
 fn replay_dir(id: &str) -> PathBuf {
-    Path::new(VERIF_DIR).join("replays").join(id)
+    verif_dir().join("replays").join(id)
 }
 
 fn failures_dir(id: &str) -> PathBuf {
-    Path::new(VERIF_DIR).join("failures").join(id)
+    verif_dir().join("failures").join(id)
 }
 
 pub fn run_parent<P: Prop>(tier: Tier) -> i32 {
@@ -740,7 +743,7 @@ pub fn run_parent<P: Prop>(tier: Tier) -> i32 {
         "wall_s": wall,
         "violations": violations.len(),
     });
-    let ev_dir = Path::new(VERIF_DIR).join("evidence");
+    let ev_dir = verif_dir().join("evidence");
     let _ = std::fs::create_dir_all(&ev_dir);
     std::fs::write(
         ev_dir.join(format!("{}.json", P::ID)),
